@@ -286,6 +286,108 @@ def run(ctx, chk):
     chk.floor("C11 obligations", len(chk.obligations), 14)
 
 
+def pipeline_form(chk, b, zvt):
+    """convert_dir written as one iterator chain over the table:
+        table.iter().map(|(path, id)| (*id, dir.join(path))).filter(|(_, full)| full.exists()).map(|(id, full)| (id, <string of full>)).collect()
+    The same three obligations as for the loop: one entry per row (collect into the map), id and path of one row stay paired
+    through every stage, only existing files are kept (the filter sits between the join and the collect).  -> True when the
+    body has this form (obligations recorded), False to fall back to the loop rules."""
+    from flow import Tracer
+    tr = Tracer(b)
+    coll = [(bb, t) for bb, t in b.calls() if callee(t).endswith("Iterator::collect") and
+            any(ty_str(g).startswith("std::collections::hash::map::HashMap<u8, alloc::string::String") for g in (t["f"].get("a") or []))]
+    if len(coll) != 1:
+        return False
+    # walk the receiver chain back from collect
+    stages = []
+    v = tr.value(coll[0][1]["args"][0])
+    hops = 0
+    while v.kind == "call" and hops < 8:
+        hops += 1
+        n = callee(v.term)
+        if n.endswith(("Iterator::map", "Iterator::filter", "Iterator::filter_map")):
+            stages.append((n.rsplit("::", 1)[-1], v.term, v.bb))
+            v = tr.value(v.term["args"][0])
+            continue
+        break
+    stages.reverse()
+    src_ok = v.kind == "call" and callee(v.term).endswith(("<impl [T]>::iter", "IntoIterator::into_iter"))
+    kinds = [k for k, _, _ in stages]
+    if not src_ok or kinds.count("filter") != 1 or "filter_map" in kinds or kinds.count("map") < 1:
+        return False
+
+    def closure_of(t):
+        cv = tr.value(t["args"][1])
+        if cv.kind == "agg" and cv.rv.get("kind") == "closure":
+            return zvt.bodies.get(cv.rv.get("n")) or getattr(zvt, "absorbed", {}).get(cv.rv.get("n"))
+        return None
+
+    def arg_field(e, k):
+        """e mentions field k of the closure's (tuple) argument - parameter 2, through refs / pattern bindings"""
+        return any(x[0] == "path" and x[1] in ("_2",) and tuple(y for y in x[2] if not str(y).startswith("@"))[:1] == (str(k),) for x in walk(e))
+
+    def ret_tuple(cb):
+        cex = Ex(cb)
+        outs = []
+        for i in sorted(cb.reachable(0)):
+            for st in cb.blocks[i]["stmts"]:
+                if st["s"] == "assign" and st["p"]["l"] == 0 and not st["p"]["p"]:
+                    outs.append(cex.rvalue(st["rv"]))
+            t = cb.blocks[i]["term"]
+            if t["t"] == "call" and t["dest"]["l"] == 0 and not t["dest"]["p"]:
+                outs.append(("call", callee(t), tuple(cex.operand(a) for a in t["args"]), i))
+        return cex, outs
+    joined = False
+    filtered_after_join = False
+    paired = True
+    why = []
+    for kind, t, bb in stages:
+        cb = closure_of(t)
+        if cb is None:
+            return False
+        cex, outs = ret_tuple(cb)
+        if kind == "map":
+            if len(outs) != 1 or not (outs[0][0] == "agg" and outs[0][1] == "tuple" and len(outs[0][2]) == 2):
+                return False
+            k_, v_ = outs[0][2]
+            if not joined:
+                has_join = any(x[0] == "call" and x[1] == "std::path::Path::join" for x in walk(v_))
+                if not has_join:
+                    return False
+                joined = True
+                jn = [x for x in walk(v_) if x[0] == "call" and x[1] == "std::path::Path::join"][0]
+                pure_key = not any(x[0] in ("bin", "un", "const") or (x[0] == "call" and not x[1].endswith(("Deref::deref", "Clone::clone")))
+                                   for x in walk(k_))
+                ok = pure_key and arg_field(k_, 1) and not arg_field(k_, 0) and arg_field(jn[2][1], 0) and not arg_field(jn[2][1], 1) and \
+                    not any(x[0] == "call" and x[1] != "std::path::Path::join" and not x[1].endswith(("Deref::deref", "AsRef::as_ref", "Clone::clone"))
+                            for x in walk(v_))
+                if not ok:
+                    paired = False
+                    why.append("first stage yields (%s, %s)" % (show(k_)[:40], show(v_)[:60]))
+            else:
+                ok = arg_field(k_, 0) and not arg_field(k_, 1) and arg_field(v_, 1) and not arg_field(v_, 0) and \
+                    not any(x[0] in ("bin", "un", "const") or (x[0] == "call" and not x[1].endswith(("Deref::deref", "Clone::clone")))
+                            for x in walk(k_))
+                if not ok:
+                    paired = False
+                    why.append("a later stage yields (%s, %s)" % (show(k_)[:40], show(v_)[:60]))
+        else:
+            cexp = [x for o in outs for x in walk(o)]
+            ex_calls = [x for x in cexp if x[0] == "call" and x[1] == "std::path::Path::exists"]
+            other = [x for x in cexp if x[0] == "call" and x[1] != "std::path::Path::exists" and
+                     not x[1].endswith(("Deref::deref", "AsRef::as_ref", "PathBuf::as_path"))]
+            if len(ex_calls) == 1 and not other and arg_field(ex_calls[0][2][0], 1) and joined:
+                filtered_after_join = True
+            else:
+                why.append("the filter does not test exists() of the joined path")
+    chk.ok("C11-a/insert", "convert_dir", "one entry per table row: the chain is collected into the map", coll[0][1].get("sp"))
+    chk.require(joined and paired, "C11-a/row-pairing", "convert_dir",
+                "id and path do not stay paired through the iterator chain: %s" % "; ".join(why)[:160], "(row.id, dir.join(row.path))", coll[0][1].get("sp"))
+    chk.require(filtered_after_join, "C11-a/only-existing", "convert_dir", "a file is announced without checking that it exists", "filter(exists)",
+                coll[0][1].get("sp"))
+    return True
+
+
 def table(chk, zvt):
     b = zvt.bodies.get(CD)
     if not chk.require(b is not None, "C11-a/anchor", "convert_dir", "not found", "", nontrivial=False):
@@ -343,6 +445,8 @@ def table(chk, zvt):
     chk.require(len(set(paths)) == len(paths), "C11-a/distinct-paths", "convert_dir", "a path is listed twice", "%d distinct paths" % len(paths), b.sp())
     chk.floor("recognised files", len(rows), 21)
     ins = [(bb, t) for bb, t in b.calls() if callee(t) == "std::collections::hash::map::HashMap::<K, V, S, A>::insert"]
+    if not ins and pipeline_form(chk, b, zvt):
+        return
     if chk.require(len(ins) == 1, "C11-a/insert", "convert_dir", "expected one insert", "", b.sp()):
         bb, t = ins[0]
         k, v = ex.operand(t["args"][1]), ex.operand(t["args"][2])
